@@ -505,7 +505,13 @@ impl Identifier
 	}
 }
 
-impl value_type::Identifier for Identifier {}
+impl value_type::Identifier for Identifier
+{
+	fn is_resolved(&self) -> bool
+	{
+		self.resolution_id > 0
+	}
+}
 
 impl PartialEq for Identifier
 {
